@@ -4,9 +4,9 @@ CONSTANTS
   CapBoth = 1
   CapAgg = 1
   CapRes = 1
-  Kinds = {"simple", "distinct", "lookup1", "lookup2", "count", "limit", "both", "agg"}
+  Kinds = {"distinct", "lookup1", "count", "limit", "both", "agg"}
   MaxStages = 3
-  Ns = {0, 2, 5, 9}
+  Ns = {1, 5}
   Fs = {1, 2}
   Ks = {99, 1}
   LimitL = 1
